@@ -43,6 +43,7 @@ structure Decl where
   external : Bool := false     -- declared in another package
   priv     : Bool := false     -- has unexported fields (reflect/unsafe path when external)
   canEq    : Bool := false     -- cached `canEqual under` (checked by `Env.flagsOk`)
+  privMask : List Bool := []   -- per field: unexported (only consulted when `external`)
   eqM      : Option UserFn := none
   cmpM     : Option UserFn := none
   hashM    : Option UserFn := none
@@ -61,6 +62,14 @@ def Env.under (env : Env) : Ty → Ty
       | some d => d.under
       | none => .fnil
   | t => t
+
+/-- per-field "unexported field of an imported struct" flags of a type (all false unless the type is
+a name declared in another package) -/
+def Env.skipMask (env : Env) : Ty → List Bool
+  | .named i => match env.decl? i with
+      | some d => if d.external then d.privMask else []
+      | none => []
+  | _ => []
 
 def Ty.isNamed : Ty → Bool
   | .named _ => true
